@@ -31,6 +31,21 @@ CODE = {1: "statement does not lex (unterminated literal/comment or stray byte)"
         8: "baseline statement does not lex",
         10: "the baseline statement is not a shape covered by theorem template_skeleton_invariant"}
 MODE = {"raw": "MRaw", "plain": "MPlain", "like": "MLike"}
+# every kind of request string named in the property text -> the positions (site-name fragments) of harness sqlinject
+# that place hostile strings there; the check requires evaluated cases for each of them
+PROPERTY_CLASSES = {
+    "label values": ["logql.sel", "logql.lblf", "logql.drop.", "logql.rate.sel", "logql.unwrap.sel", "logql.topk.sel",
+                     "logql.quantile.sel", "promql.val.", "promql.down.val"],
+    "regular expressions": ["=~", "!~", "|~", "logql.regexp", "tempo.search.val.re", "logql.sel.cluster", "logql.topk.sel"],
+    "line filters": ["logql.line", "logql.sumby.line"],
+    "JSON paths": ["logql.json.path"],
+    "templates": ["logql.lineformat.", "logql.labelformat."],
+    "trace tag names and values": ["tempo.", "traceql."],
+    "profile selectors": ["prof."],
+    "label names in URLs": ["labels.values.label", "prof.labelvalues.name", "tempo.values.tag", "tempo.valuesv2.key"],
+    "match[] parameters": ["labels.values.match", "labels.series.match", "labels.promvalues.match"],
+    "label/attribute names inside queries": [".ident.", "promql.name", "promql.down.name"],
+}
 
 
 def pack(hexs):
@@ -197,8 +212,12 @@ def run_correspondence(ck, known):
                             "LIKE wildcards, multi-byte and invalid UTF-8, SQL fragments; random bytes) placed in one string position of "
                             "one query shape per case; non-trivial = the value contains at least one byte that the escaper, the "
                             "ClickHouse lexer or LIKE treats specially, or a non-ASCII byte; distinct by (site, value). ")
+    per_class = {k: sum(n for st, n in sites.items() if any(f in st for f in frags)) for k, frags in PROPERTY_CLASSES.items()}
+    empty = [k for k, n in per_class.items() if n < 15]
+    ck.obligation("every kind of request string named in the property has evaluated cases in the differential run: %s" % per_class,
+                  not empty, "no (or < 15) cases for: %s" % empty)
     ck.extra["input_distribution"] = {"classes": hist, "sites": sites, "rejected_by_parser_or_planner": rejs,
-                                      "verdict_codes": CODE}
+                                      "verdict_codes": CODE, "cases_per_property_string_class": per_class}
     samples = [by_id[i] for i in list(by_id)[:400:140]]
 
     def around(c):
@@ -215,7 +234,7 @@ def run_correspondence(ck, known):
 LOGQL_CTX = {"from_ns": 1700000000 * 10**9, "to_ns": 1700003600 * 10**9, "limit": 100, "asc": False, "cluster": False,
              "type": 1, "finalize": True, "step_ms": 1000}
 # model/LogqlPlan.v returns None for a pipeline with line_format ("LineFormatPlanner: not transcribed yet", C08's model)
-NOT_PLANNED_BY_MODEL = {"logql.lineformat.direct"}
+NOT_PLANNED_BY_MODEL = {"logql.lineformat.direct", "logql.lineformat.tmpl"}
 SPECIAL = b"'\\\x00\n\r\x08\t\x1a"
 
 
